@@ -91,6 +91,13 @@ def run(run):
         chans.append(("LaplacianChannel", "snr", cplx, 7, lambda: LaplacianChannel(snr_db=7), "laplacian", None))
         for sc in ((0.05, 2.0) if quick else (0.05, 0.5, 2.0, 30.0)):
             chans.append(("LaplacianChannel", "scale", cplx, sc, lambda sc=sc: LaplacianChannel(scale=sc), "laplacian", None))
+        if cplx:
+            # the other complex modes of the nonlinear channel: the SNR refers to the signal that enters the noise stage, i.e. to f(x)
+            soft = (lambda m: m / torch.sqrt(1 + m * m))
+            for snr in (10.0, 30.0):
+                chans.append(("NonlinearChannel", "snr", True, snr, lambda snr=snr: NonlinearChannel(soft, add_noise=True, snr_db=snr, complex_mode="polar"), "gaussian", "polar_soft"))
+                chans.append(("NonlinearChannel", "snr", True, snr, lambda snr=snr: NonlinearChannel(lambda v: 0.5 * v, add_noise=True, snr_db=snr, complex_mode="direct"), "gaussian", "direct_half"))
+            chans.append(("NonlinearChannel", "power", True, 0.5, lambda: NonlinearChannel(soft, add_noise=True, avg_noise_power=0.5, complex_mode="polar"), "gaussian", "polar_soft"))
         for snr in snrs:
             chans.append(("AWGNChannel", "snr", cplx, snr, lambda snr=snr: AWGNChannel(snr_db=snr), "gaussian", None))
             chans.append(("LaplacianChannel", "snr", cplx, snr, lambda snr=snr: LaplacianChannel(snr_db=snr), "laplacian", None))
@@ -123,6 +130,13 @@ def run(run):
             fx = x
             if nl == "tanh":
                 fx = torch.complex(torch.tanh(x.real), torch.tanh(x.imag)) if cplx else torch.tanh(x)
+            elif nl == "polar_soft":
+                mag = x.abs()
+                fx = torch.polar(mag / torch.sqrt(1 + mag * mag), torch.angle(x))
+                cfg["complex_mode"] = "polar"
+            elif nl == "direct_half":
+                fx = 0.5 * x
+                cfg["complex_mode"] = "direct"
             noise = y - fx
             nreal = N * (2 if cplx else 1)
             p, mean_ppm = measure(noise, nreal)
